@@ -582,6 +582,8 @@ def restore_case(conc, di, fs, enc, wfail=None):
         try:
             res = rt.MiniLoop().run_until_complete(repo.restore(path=d / 'out'))
         except Exception as e:
+            if rt.THREAD_VIOLATIONS:                 # e.g. the error path joins its thread pools on the loop thread (C09_g)
+                return False, rt.THREAD_VIOLATIONS[0]
             if wfail is not None and nw['n'] > wfail:
                 return True, 'raised'
             return False, f'restore raised {e!r}'
@@ -591,7 +593,7 @@ def restore_case(conc, di, fs, enc, wfail=None):
                 bad = [k for k in want if got.get(k) != want[k]]
                 return False, f'write #{wfail} of a file part failed in its writer thread, yet restore reported success; {len(bad)} file(s) differ from the snapshot'
         if rt.THREAD_VIOLATIONS:
-            return False, rt.THREAD_VIOLATIONS[0] + ' (lost wake-ups: a loader can wait forever for a slot that is free)'
+            return False, rt.THREAD_VIOLATIONS[0]
         got = {'/' + k: v[0] for k, v in world.tree_state(d / 'out').items()}
         if got != want:
             return False, 'restored tree differs under latencies ' + str(delays)
